@@ -107,7 +107,7 @@ def run(prog, rep, tier):
                         if from_len and not from_count:
                             rep.ob('R13.1', False, 'R13.1|%s|store:%s|from-requested-length' % (body.nkey, '.'.join(place_fields(s.place))),
                                    'state field %s updated from buf.len() instead of the accepted count' % place_str(bd, s.place), bd.loc(bl.idx, i))
-    rep.floor('R13.1', nw, 8, 'raw Write::write calls in the workspace')
+    rep.floor('R13.1', nw, 4, 'raw Write::write calls in the workspace')
     # complete forms in the encryption writer (a short write of ciphertext cannot be retried by the caller)
     ew = [b for b in prog.crates['mla'].bodies if b.impl_adt == 'layers::encrypt::EncryptionLayerWriter']
     n = 0
@@ -157,7 +157,7 @@ def run(prog, rep, tier):
             ok = acc and (zero_test or b.idx in loops or body.impl_trait == 'std::io::Read')
             rep.ob('R13.3', ok, key, 'count accumulated into an offset (fill idiom)%s' % (' with end-of-input test' if zero_test else '') if ok else
                    'the count returned by Read::read is neither returned nor accumulated: a short read is treated as a full one', body.loc(b.idx))
-    rep.floor('R13.3', nr, 15, 'raw Read::read calls in the workspace')
+    rep.floor('R13.3', nr, 6, 'raw Read::read calls in the workspace')
     # R13.3b: in a pass-through reader, anything else that consumes the caller's buffer after the raw read is bounded by the count read
     for body in prog.bodies(PKGS):
         if body.impl_trait != 'std::io::Read' or body.name != 'read' or body.kind == 'Closure':
